@@ -45,7 +45,7 @@ _PROG = {}
 # third family: results holding NaN and +-inf as ordinary (non-missing) cells (the CSV reader delivers them for cells "nan" / "inf")
 NF_PRODUCERS = [("pn", False, "f_nan"), ("pm", False, "f_nan_miss"), ("pg", False, "f_full")]
 NC_PRODUCERS = [("p2", True, "z_2d"), ("q2", False, "f_2d"), ("r2", False, "f_2d_miss"), ("i2", False, "i_2d"), ("y2", True, "z_2d_full"),
-                ("u2", False, "u_2d")]  # unsigned elements: what the NetCDF reader delivers for DataType = "Positive Integer"
+                ("u2", False, "u_2d"), ("t3", False, "f_3d")]  # unsigned elements: what the NetCDF reader delivers for DataType = "Positive Integer"
 
 
 def _table():
@@ -61,6 +61,7 @@ def _table():
         "f_2d": lambda: numpy.ma.MaskedArray([[3.0, -1.0], [0.5, 2.0]]),
         "f_2d_miss": lambda: numpy.ma.MaskedArray([[1.5, 0.0], [-2.0, 4.0]], mask=[[True, False], [False, False]]),
         "i_2d": lambda: numpy.ma.MaskedArray(numpy.array([[2, -1], [0, 5]], dtype=numpy.int64)),
+        "f_3d": lambda: numpy.ma.MaskedArray([[[1.0, 2.5], [0.0, -1.0]]], mask=[[[False, False], [False, True]]]),  # shape (1, 2, 2)
         "u_2d": lambda: numpy.ma.MaskedArray(numpy.array([[3, 5], [0, 1]], dtype=numpy.uint64), mask=[[False, False], [True, False]]),
         "z_2d_full": lambda: numpy.ma.MaskedArray([[0.5, -1.0], [1.0, 0.0]], mask=[[False, False], [False, False]]),
     }
@@ -105,6 +106,12 @@ def _new_program(workdir):
     return p
 
 
+def _sq(shape):
+    """shape without its length-1 axes: a (1, 2, 2) variable (one time step) next to a (2, 2) grid is a pair worth trying - whatever the
+    consumer makes of it (MixedArrayShapes today), the producers stay as they are"""
+    return tuple(d for d in shape if d != 1)
+
+
 def _consumer_events(results):
     """results: list of (name, fuzzy, shape) present.  Yields event descriptors (cmd, preset index, input names)."""
     cmds = list(SIG.DATA_COMMANDS) + ["PrintVars", "EEMSWrite"]
@@ -121,9 +128,9 @@ def _consumer_events(results):
         if ar == "1":
             choices = [(r,) for r in cands]
         elif ar == "2":
-            choices = [c for c in itertools.product(cands, repeat=2) if c[0][2] == c[1][2]]
+            choices = [c for c in itertools.product(cands, repeat=2) if _sq(c[0][2]) == _sq(c[1][2])]
         else:
-            choices = [(r,) for r in cands] + [c for c in itertools.product(cands, repeat=2) if c[0][2] == c[1][2]]
+            choices = [(r,) for r in cands] + [c for c in itertools.product(cands, repeat=2) if _sq(c[0][2]) == _sq(c[1][2])]
         for ch in choices:
             n = len(ch)
             k = npres or len(D.presets_small(cmd, n))
@@ -199,7 +206,7 @@ def cases(tier):
     for ev in _consumer_events(nf_base):
         if ev[1] == 0:
             yield ("hist", ev, tier, "nonfinite")
-    nc_base = [(n, fz, (2, 2)) for n, fz, k in NC_PRODUCERS]
+    nc_base = [(n, fz, (1, 2, 2) if k == "f_3d" else (2, 2)) for n, fz, k in NC_PRODUCERS]
     for ev in _consumer_events(nc_base):
         if ev[0] == "EEMSWrite" or ev[1] == 0:
             yield ("hist", ev, tier, "netcdf")
